@@ -100,6 +100,7 @@ def tlc(module, cfg, out, workers=8, env=None, timeout=600, heap=None, extra=Non
         p = subprocess.run(cmd, cwd=SPEC, env=e, stdout=f, stderr=subprocess.STDOUT)
     wall = time.time() - t0
     shutil.rmtree(meta, ignore_errors=True)
+    unwrap_tuples(out)
     res = dict(ok=False, generated=0, distinct=0, depth=0, violated=None, error=None, wall=wall, rc=p.returncode, out=out)
     if p.returncode == 124:
         res["error"] = "timeout after %ss" % timeout
@@ -128,6 +129,43 @@ def tlc(module, cfg, out, workers=8, env=None, timeout=600, heap=None, extra=Non
     res["tail"] = "".join(tail)
     res["ok"] = (p.returncode == 0 and res["error"] is None)
     return res
+
+
+def unwrap_tuples(path):
+    """TLC pretty-prints a value wider than 80 columns over several lines (`<< "TAG",` / `   2,` / ... / `   "x" >>`).
+    Every reader of tagged lines expects one line per printed tuple, so such blocks are folded back into
+    `<<"TAG", 2, ..., "x">>`. Without this a long diagnosis would silently disappear."""
+    try:
+        with open(path, errors="replace") as f:
+            lines = f.read().split("\n")
+    except OSError:
+        return
+    if not any(l.startswith("<< ") for l in lines):
+        return
+    out, buf = [], None
+    for l in lines:
+        if buf is None:
+            if l.startswith("<< ") and not l.rstrip().endswith(">>"):
+                buf = [l.strip()]
+            elif l.startswith("<< "):
+                out.append(_compact(l))
+            else:
+                out.append(l)
+        else:
+            buf.append(l.strip())
+            joined = " ".join(buf)
+            if joined.count("<<") == joined.count(">>"):
+                out.append(_compact(joined))
+                buf = None
+    if buf is not None:
+        out.extend(buf)
+    with open(path, "w") as f:
+        f.write("\n".join(out))
+
+
+def _compact(s):
+    s = re.sub(r"\s+", " ", s.strip())
+    return s.replace("<< ", "<<").replace(" >>", ">>")
 
 
 def tagged_lines(path, tag):
